@@ -1,6 +1,8 @@
 """Per-property configuration of ./check."""
 
-PRODUCERS = {"new", "slice", "clone", "mat", "safeT", "roll", "scalar", "shallow"}
+# steps that never push a program variable (every other step does, so the minimiser must keep it)
+NON_PRODUCERS = {"T", "UT", "transpose", "at", "atbox", "setat", "memset", "zero", "copy", "copyto", "reshape",
+                 "iter", "dump", "calcS", "calcT", "calcRepeat", "calcConcat", "harden", "soften", "setmask", "mq", "mruns", "miter", "mdump"}
 
 TRUSTED_BASE = [
     "Lean 4.33.0 kernel (thorough tier: re-checked with leanchecker); axioms limited to propext, Classical.choice, Quot.sound (audited with #print axioms on every run)",
@@ -51,6 +53,15 @@ PROPS = {
     "C12": {
         "lean_modules": ["C12"],
         "rule": "15 unary operations (neg inv square cube exp tanh log log2 log10 sqrt cbrt invsqrt abs sign clamp) and Dense.Apply x 16 element types (accepted and refused ones) x {safe, unsafe, reuse, incr, reuse aliasing the operand} x operand/destination layouts as C06/C07; value sets with 0, negatives, extremes, NaN/Inf; the model's term is evaluated with the same Go maths routine the kernel names and compared bit-exactly",
+    },
+    "C16": {
+        "lean_modules": ["C16"],
+        "rule": "the programs of the C01, C02, C03, C04, C05 and C13 generators that build a column-major tensor (both constructors: column-major over the raw backing, converting a row-major sequence) + the arithmetic / comparison / min-max / unary matrices with every operand and the reuse / incr destination drawn independently from {column-major raw, column-major converting, lazily transposed column-major, row-major contiguous, lazily transposed, sliced}, at least one operand column-major; results are compared with the specification on logical contents (= the row-major run)",
+    },
+    "C20": {
+        "lean_modules": ["C20"],
+        "builds": [["default", "verif"], ["noasm", "verif noasm"], ["inplace", "verif inplacetranspose"]],
+        "rule": "engines {default, Float64Engine, Float32Engine} x Add in modes {safe, unsafe, reuse, incr} x operand layouts {contiguous, lazily transposed, sliced, column-major}; FMA with tensor and scalar multiplier; mismatched shapes; plus samples of the C03 (transposition sequences), C05 (iterators) and C06 (arithmetic) domains; every program is executed by three harness binaries built from the current tree with tags {verif}, {verif,noasm}, {verif,inplacetranspose}, and each must equal the single, configuration-independent model and specification output",
     },
     "C13": {
         "lean_modules": ["C13"],
